@@ -1,5 +1,6 @@
 //! rigs: drive the library through the in-memory physical layer, on a current-thread runtime with a paused clock
 pub mod exec;
+pub mod handler;
 pub mod outstation;
 
 use std::future::Future;
